@@ -11,7 +11,7 @@ use rten_vecmath as vecmath;
 
 use crate::buffer_pool::BufferPool;
 use crate::infer_shapes::{
-    InferShapes, InferShapesContext, InferShapesError, ReductionOp, SymTensor, SymbolGen,
+    Constant, InferShapes, InferShapesContext, InferShapesError, ReductionOp, SymTensor, SymbolGen,
     impl_infer_shapes,
 };
 use crate::operator::{
@@ -31,6 +31,20 @@ macro_rules! impl_infer_shapes_for_reduce_op {
                 inputs: InferShapesContext,
                 sym_gen: &mut SymbolGen,
             ) -> Result<Vec<SymTensor>, InferShapesError> {
+                if self.noop_with_empty_axes {
+                    // If `axes` is empty or missing, the output is a copy of
+                    // the input.
+                    let axes_empty = match inputs.get(1) {
+                        Some(axes) => match axes.to_constant() {
+                            Some(Constant::Vector(axes)) => Some(axes.is_empty()),
+                            _ => None,
+                        },
+                        None => Some(is_none_or_empty(self.axes.as_deref())),
+                    };
+                    if axes_empty == Some(true) {
+                        return Ok([inputs.require(0)?.clone()].into());
+                    }
+                }
                 ReductionOp {
                     axes: self.axes.as_deref(),
                     keep_dims: self.keep_dims,
